@@ -22,6 +22,12 @@ def M(id_, file, old, new, props):
 
 
 MUTANTS = [
+    M('mvee-of-a-subsample', B, "            bound.c, bound.A, A_inv = minimum_volume_enclosing_ellipsoid(\n                points)",
+      "            bound.c, bound.A, A_inv = minimum_volume_enclosing_ellipsoid(\n                points[::2])", 'C07'),
+    M('mixture-contains-demands-unit-cube', B,
+      "        in_bound = np.ones(points.shape[:-1], dtype=bool)\n        if self.cube is not None:",
+      "        in_bound = np.all((points >= 0) & (points < 1), axis=-1)\n        if self.cube is not None:",
+      'C07'),
     M('empty-shell-marked-minus-inf', S, "            self.shell_log_l[index] = np.nan",
       "            self.shell_log_l[index] = -np.inf", 'C02'),
     M('reader-one-layer-short', NN,
@@ -1002,6 +1008,83 @@ def _shared_key_list(src):
     return src.replace("\nclass Sampler", "\n" + const + "class Sampler", 1)
 
 
+def _union_replace_helper(src):
+    """Union: the record bookkeeping shared by split() and trim() moves into a private helper
+    `_replace(index, bounds, points_bounds)`; both callers still reset the sampling."""
+    a = ("        self.points_bounds.pop(index)\n"
+         "        self.points_bounds.append(points[labels == 0])\n"
+         "        self.points_bounds.append(points[labels == 1])\n"
+         "        self.bounds.pop(index)\n"
+         "        self.bounds = self.bounds + new_bounds\n"
+         "        self.log_v_all = np.array([bound.log_v for bound in self.bounds])\n"
+         "        self.block = np.concatenate(\n"
+         "            (np.delete(self.block, index),\n"
+         "             [len(self.points_bounds[-2]) < 2 * self.n_points_min,\n"
+         "              len(self.points_bounds[-1]) < 2 * self.n_points_min]))\n")
+    b = ("            self.points_bounds.pop(index)\n"
+         "            self.bounds.pop(index)\n"
+         "            self.log_v_all = np.array([bound.log_v for bound in self.bounds])\n"
+         "            self.block = np.delete(self.block, index)\n")
+    if a not in src or b not in src or "    def trim(self, threshold=1e3):" not in src:
+        return src
+    src = src.replace(a, "        self._replace(index, new_bounds,\n"
+                         "                      [points[labels == 0], points[labels == 1]])\n", 1)
+    src = src.replace(b, "            self._replace(index, [], [])\n", 1)
+    helper = ("    def _replace(self, index, bounds, points_bounds):\n"
+              "        self.points_bounds.pop(index)\n"
+              "        self.points_bounds.extend(points_bounds)\n"
+              "        self.bounds.pop(index)\n"
+              "        self.bounds.extend(bounds)\n"
+              "        self.log_v_all = np.array([bound.log_v for bound in self.bounds])\n"
+              "        self.block = np.concatenate(\n"
+              "            (np.delete(self.block, index),\n"
+              "             np.array([len(points) < 2 * self.n_points_min for points in\n"
+              "                       points_bounds], dtype=bool)))\n\n")
+    return src.replace("    def trim(self, threshold=1e3):", helper + "    def trim(self, threshold=1e3):", 1)
+
+
+def _union_replace_helper_no_reset(src):
+    out = _union_replace_helper(src)
+    return out.replace("            self._replace(index, [], [])\n            self.reset()\n",
+                       "            self._replace(index, [], [])\n", 1)
+
+
+def _union_split_in_place(src, typed=True):
+    """Union.split: the first child takes the slot of the split member, the second is appended;
+    log_v_all and block are patched instead of rebuilt.  With `typed` the array of log-volumes
+    is created as float (benign); without, a union whose first member reports the int 0 gets an
+    integer array and the patched volume is truncated (breaking)."""
+    a = ("        self.points_bounds.pop(index)\n"
+         "        self.points_bounds.append(points[labels == 0])\n"
+         "        self.points_bounds.append(points[labels == 1])\n"
+         "        self.bounds.pop(index)\n"
+         "        self.bounds = self.bounds + new_bounds\n"
+         "        self.log_v_all = np.array([bound.log_v for bound in self.bounds])\n"
+         "        self.block = np.concatenate(\n"
+         "            (np.delete(self.block, index),\n"
+         "             [len(self.points_bounds[-2]) < 2 * self.n_points_min,\n"
+         "              len(self.points_bounds[-1]) < 2 * self.n_points_min]))\n")
+    c = "        bound.log_v_all = np.array([bound.bounds[0].log_v])\n"
+    if a not in src or c not in src:
+        return src
+    b = ("        self.points_bounds[index] = points[labels == 0]\n"
+         "        self.points_bounds.append(points[labels == 1])\n"
+         "        self.bounds[index] = new_bounds[0]\n"
+         "        self.bounds.append(new_bounds[1])\n"
+         "        self.log_v_all[index] = new_bounds[0].log_v\n"
+         "        self.log_v_all = np.append(self.log_v_all, new_bounds[1].log_v)\n"
+         "        self.block[index] = np.sum(labels == 0) < 2 * self.n_points_min\n"
+         "        self.block = np.append(\n"
+         "            self.block, np.sum(labels == 1) < 2 * self.n_points_min)\n")
+    src = src.replace(a, b, 1)
+    if typed:
+        src = src.replace(c, "        bound.log_v_all = np.array([bound.bounds[0].log_v], "
+                             "dtype=float)\n", 1)
+        src = src.replace("np.array([bound.log_v for bound in self.bounds])",
+                          "np.array([bound.log_v for bound in self.bounds], dtype=float)")
+    return src
+
+
 BENIGN += [
     dict(id='extract-removal-helper', file=S, old="if np.any(self.shell_n == 0):", new=None,
          fn=_extract_removal_helper, props=ALL.split()),
@@ -1108,11 +1191,23 @@ BENIGN += [
          new="dist.ppf(points[..., i])", props=ALL.split()),
     dict(id='uniform-positional', file=PR, old="dist = uniform(loc=dist[0], scale=dist[1] - dist[0])",
          new="dist = uniform(dist[0], dist[1] - dist[0])", props=ALL.split()),
+    dict(id='union-replace-helper', file=U, old="            self.block = np.delete(self.block, index)",
+         new=None, fn=_union_replace_helper, props=ALL.split()),
+    dict(id='union-split-in-place', file=U, old="        self.bounds = self.bounds + new_bounds",
+         new=None, fn=('_union_split_in_place', True), props=ALL.split()),
     dict(id='with-statement', file=S, old="fstream = h5py.File(filepath_tmp, 'w')", new=None,
          fn=_with_statement, props=ALL.split()),
     dict(id='guard-clause-trim', file=U, old="            return False\n\n    def contains",
          new=None, fn=_early_return_style, props=ALL.split()),
 ]
+
+MUTANTS.append(dict(id='union-replace-helper-trim-without-reset', file=U,
+                    old="            self.block = np.delete(self.block, index)", new=None,
+                    fn=_union_replace_helper_no_reset, props='C01 C07 C08 C13'.split()))
+
+MUTANTS.append(dict(id='union-split-in-place-integer-volumes', file=U,
+                    old="        self.bounds = self.bounds + new_bounds", new=None,
+                    fn=('_union_split_in_place', False), props='C08'.split()))
 
 # entries that replace every occurrence of `old`
 REPLACE_ALL = {'rename-mask', 'fstring-keys', 'rename-temp-path', 'multiplicity-renamed',
